@@ -9,7 +9,7 @@
    implementation and by byte-exact correspondence of the session model, not by a theorem (DESIGN.md, C01). *)
 From Coq Require Import ZArith List Bool.
 From Coq Require String.
-Require Import PyLib SuiteTypes Crypto KeySchedule Packet Reassembly Decryptor TlsSession TlsRecords C01P Hs13P C01SessionP C01Session12P C01SessionLegacyP HelloP Fresh12P PlainHsP Keys12P.
+Require Import PyLib SuiteTypes Crypto KeySchedule Packet Reassembly Decryptor TlsSession TlsRecords C01P Hs13P C01SessionP C01Session12P C01SessionLegacyP HelloP Fresh12P PlainHsP Keys12P Conn12P.
 Import ListNotations.
 Open Scope Z_scope.
 
@@ -379,3 +379,28 @@ Print Assumptions C01_tls12_keys_installed_chacha.
 Print Assumptions C01_tls12_keys_installed_rc4.
 Print Assumptions C01_tls12_keys_installed_cbc_explicit.
 Print Assumptions C01_tls12_keys_installed_cbc_chained.
+
+(* ---------------- a whole TLS 1.2 connection with an AEAD suite, behind the ClientHello ---------------- *)
+(* The record with the ServerHello (followed by the beginning of the rest of the server's flight), then the rest of the plaintext
+   handshake -- the server's flight and the client's, each cut into records at ANY bytes, the two directions interleaved in ANY way,
+   no further hello among the messages --, then each direction's ChangeCipherSpec, its Finished and application records, in any
+   interleaving: the session exports exactly the application contents as application data, in order and with their direction.
+   The theorem composes C01_server_hello_parsed, C01_tls12_keys_installed_aead, C01_plain_handshake_* and C01_tls12_aead_session:
+   the conclusion of each is the premise of the next.  (The premises on the suite, the key log and the derivation are those of
+   C01_tls12_keys_installed_aead; C15 says what the derived keys are.) *)
+Theorem C01_tls12_aead_connection : forall C, CryptoLaws C -> forall tbl parts keylog
+  s r hv random sid suite es more cs a x xs k v ms_s Fc mid version evs stc sts stc' sts' rs,
+  ts_client_hello_seen s = true -> ts_server_cc s = false -> ts_client_cc s = false -> hsst true s = (0, []) -> hsst false s = (0, []) ->
+  r_type r = 22 -> r_body r = sh_message hv random sid suite 0 es ++ more ->
+  len hv = 2 -> len random = 32 -> len sid < 256 -> len suite = 2 ->
+  match es with None => True | Some l => Forall ext_ok l /\ len (enc_exts l) < 65536 end -> wfm (2, sh_body hv random sid suite es) ->
+  version_choice (from_be (r_version r)) (from_be hv) es = Some v -> v <> TLS13 ->
+  SuiteParser.split_cipher_suite tbl parts (from_be suite) = Some cs -> algo_of cs = Some a -> a = AESGCM \/ a = AESCCM -> 0 <= s_tag cs ->
+  find_session_secrets keylog s = x :: xs -> derive_session_keys C v cs (x :: xs) (ts_client_random s) random = Ok (K12 k) ->
+  Forall wfm ms_s -> Forall wfm Fc -> Forall (fun m => fst m <> 1 /\ fst m <> 2) ms_s -> Forall (fun m => fst m <> 1 /\ fst m <> 2) Fc ->
+  Forall (fun y => r_type (snd y) = 22 /\ r_body (snd y) <> []) mid -> more ++ bodies true mid = stream ms_s -> bodies false mid = stream Fc ->
+  len version = 2 -> ss_seq stc = 0 -> ss_seq sts = 0 -> Z.of_nat (length evs) <= 2 ^ 64 -> Forall ev12_ok evs -> ordered false false evs ->
+  play12 C a (client_key k) (client_iv k) (server_key k) (server_iv k) version (s_tag cs) stc sts evs = Ok (stc', sts', rs) ->
+  exists s' out, session_run C tbl parts keylog s ((true, r) :: mid ++ rs) = Ok (s', out) /\ data_entries out = flat_map app_of evs.
+Proof. exact tls12_aead_connection. Qed.
+Print Assumptions C01_tls12_aead_connection.
